@@ -301,7 +301,15 @@ func (g *Gen) execCall(x *ssa.Call, c *ssa.CallCommon, st *State, deferred bool)
 		return
 	}
 	matched := g.callRulesPre(c, st, "")
+	g.frameNothing = false
+	for _, r := range matched {
+		if r.FrameNothing {
+			g.frameNothing = true
+			g.note(fmt.Sprintf("ASSUMED frame: calls matching %q in %s write no caller-visible location", r.Pattern, g.key))
+		}
+	}
 	results := g.doCall(x, c, st)
+	g.frameNothing = false
 	g.callRulesPost(matched, c, results, st, "true")
 }
 
@@ -354,7 +362,7 @@ func (g *Gen) doCall(x *ssa.Call, c *ssa.CallCommon, st *State) []Val {
 	if f := c.StaticCallee(); f != nil && g.W.isPureLib(f) {
 		pure = true
 	}
-	if !pure {
+	if !pure && !g.frameNothing {
 		g.havocForCall(c, st)
 	}
 	var res []Val
